@@ -110,8 +110,65 @@ def dec_main(kind, args, kwargs, res, rec):
             "capacity_flow": cap})
 
 
+def _batched(dec, names):
+    """The primitives are element-wise: a call on arrays of n entries (a density grid, a logged trajectory)
+    is decided entry by entry."""
+
+    def wrapped(kind, args, kwargs, res, rec):
+        a = _args(names, args, kwargs)
+        try:
+            flats = {k: primmon.flat(v) for k, v in a.items() if k != "type" and v is not None}
+            rflat = primmon.flat(res)
+        except Exception:
+            return dec(kind, args, kwargs, res, rec)
+        n = max([len(v) for v in flats.values()] + [len(rflat)])
+        if n <= 1:
+            return dec(kind, args, kwargs, res, rec)
+        if any(len(v) not in (1, n) for v in flats.values()) or len(rflat) != n:
+            rec.violation(f"{PROP}:{dec.__name__[4:]}:{kind}: element-wise call on {n} entries returns {len(rflat)} values", {"args": primmon._show(a)})
+            return
+        rec.count("vectorised_primitive_calls")
+        for i in range(n):
+            kw_i = {k: (v[i] if len(v) == n else v[0]) for k, v in flats.items()}
+            if "type" in a:
+                kw_i["type"] = a["type"]
+            dec(kind, (), kw_i, rflat[i], rec)
+
+    return wrapped
+
+
 def dec_queue(kind, args, kwargs, res, rec):
     rec.count("step_queue_calls")
+
+
+def vectorised_calls(M, rec, rng, reps):
+    """The origin-flow primitives evaluated on whole arrays at once (a grid of first-segment densities
+    from free flow to jam, with varying demand / queue / rate), NumPy arrays and CasADi DM vectors."""
+    import sym_metanet.engines.casadi as EC
+    import sym_metanet.engines.numpy as EN
+
+    for _ in range(reps):
+        side = rng.choice(("numpy", "numpy", "casadi"))
+        E = EN if side == "numpy" else EC
+        vec = (lambda xs: np.array(xs, dtype=float)) if side == "numpy" else (lambda xs: cs.DM([float(t) for t in xs]))
+        n = rng.randint(2, 9)
+        T = rng.choice((10, 5, 15)) / 3600
+        rmax, rc, C = rng.uniform(160, 200), rng.uniform(25, 40), rng.uniform(1000, 4500)
+        r1 = sorted(rng.choice((0.0, rc, rmax, rng.uniform(0, rc), rng.uniform(rc, rmax))) for _i in range(n))
+        if rng.random() < 0.5:
+            r1[-1] = rmax
+        d = [rng.choice((0.0, rng.uniform(0, 2 * C))) for _i in range(n)]
+        w = [rng.choice((0.0, rng.uniform(0, 300))) for _i in range(n)]
+        which = rng.choice(("ramp", "ramp", "simple"))
+        try:
+            if which == "ramp":
+                r_ = [rng.choice((0.0, 1.0, rng.random())) for _i in range(n)]
+                E.OriginsEngine.get_ramp_flow(vec(d), vec(w), C, vec(r_), rmax, vec(r1), rc, T, rng.choice(("in", "out")))
+            else:
+                qd = [rng.choice((0.0, rng.uniform(0, 2 * C), 1e9)) for _i in range(n)]
+                E.OriginsEngine.get_simplifiedramp_flow(vec(qd), vec(d), vec(w), C, rmax, vec(r1), rc, T, "limited")
+        except Exception as e:
+            rec.violation(f"{PROP}:{which}:{side}: element-wise call on {n} entries raised {type(e).__name__}", {"exception": repr(e)[:300]})
 
 
 def corner_calls(M, rec, rng, reps):
@@ -203,9 +260,9 @@ def run(M, rec, tier, seed, k, n):
     rng = random.Random(seed * 1000 + k + 1700)
     pm = primmon.PrimMonitor(M, rec, PROP)
     pm.shadow = False
-    pm.add_decider("get_ramp_flow", dec_ramp)
-    pm.add_decider("get_simplifiedramp_flow", dec_simple)
-    pm.add_decider("get_mainstream_flow", dec_main)
+    pm.add_decider("get_ramp_flow", _batched(dec_ramp, ("d", "w", "C", "r", "rho_max", "rho_first", "rho_crit", "T", "type")))
+    pm.add_decider("get_simplifiedramp_flow", _batched(dec_simple, ("qdes", "d", "w", "C", "rho_max", "rho_first", "rho_crit", "T", "type")))
+    pm.add_decider("get_mainstream_flow", _batched(dec_main, ("d", "w", "v_ctrl", "v_first", "rho_crit", "a", "v_free", "lanes", "T")))
     pm.add_decider("step_queue", dec_queue)
     pm.install()
     symvals = O.SymVals(random.Random(seed + 1))
@@ -227,7 +284,9 @@ def run(M, rec, tier, seed, k, n):
 
     try:
         corner_calls(M, rec, rng, 20000 if tier == "quick" else 250000)
-        W.numpy_steps(M, rec, rng, 200 if tier == "quick" else 1500, draws=3)
+        vectorised_calls(M, rec, rng, 1500 if tier == "quick" else 20000)
+        W.numpy_steps(M, rec, rng, 200 if tier == "quick" else 1500, draws=3, mutate_prob=0.6,
+                      mutate_prefer=("flow_equation", "capacity", "fd"))
         W.symbolic_steps(M, rec, rng, symvals, 12 if tier == "quick" else 80, points=2)
         W.inplace_pairs(M, rec, rng, 40 if tier == "quick" else 400, allow_inf=False)
         W.closed_loop(M, rec, rng, 6 if tier == "quick" else 12, 100 if tier == "quick" else 300, on_step=on_step)
